@@ -8,6 +8,7 @@ import NixModel.Lemmas.C18Inside
 import NixModel.Lemmas.C18Total
 import NixModel.Lemmas.C18Names
 import NixModel.Lemmas.C18NoLoss
+import NixModel.Lemmas.C18Stale
 
 /-!
 # C18 — format upgrade preserves content, is idempotent and resumable
@@ -394,6 +395,27 @@ theorem C18_resumable_history_total (lib : List Nat) (r r2 r3 : Nat) (ks : List 
     (upgrade lib r2 (runHistoryAny lib r f ks)).2 = (upgrade lib r3 f).2 :=
   history_any_resume ks r hwf
 
+/-- A task list collected *before* an interrupted (or refused) run and processed afterwards on what that run left —
+`nixio upgrade a.nix ./a.nix` collects both lists up front; a second instance of the tool —: every step the first run
+completed is recognised as done by its re-check and changes nothing, the rest is exactly what a fresh `collect_tasks`
+schedules; so the stale list gives the same file and outcome as an uninterrupted upgrade of the original file, up to
+fresh ids and timestamps. For every file and every interruption point (`C18_safe_to_repeat` is the case where the
+first run completed). -/
+theorem C18_stale_list_resumes (lib : List Nat) (r1 r2 r3 k : Nat) (f : File) (hwf : WF f) :
+    runSteps lib r2 (interrupt lib r1 k f).1 (collect lib f) = upgrade lib r2 (interrupt lib r1 k f).1 ∧
+    (runSteps lib r2 (interrupt lib r1 k f).1 (collect lib f)).1.erase = (upgrade lib r3 f).1.erase ∧
+    (runSteps lib r2 (interrupt lib r1 k f).1 (collect lib f)).2 = (upgrade lib r3 f).2 := by
+  have key : runSteps lib r2 (interrupt lib r1 k f).1 (collect lib f) = upgrade lib r2 (interrupt lib r1 k f).1 := by
+    cases hi : interrupt lib r1 k f with
+    | mk g e =>
+      cases e with
+      | none => exact stale_after_prefix k hwf hi
+      | some e =>
+        obtain ⟨j, _, hj⟩ := prefix_failure_is_interruption k f g e hwf hi
+        exact stale_after_prefix j hwf hj
+  rw [key]
+  exact ⟨rfl, C18_resumable_total lib r1 r2 r3 k f hwf⟩
+
 /-- `ContentPreserved` with the per-value extras read by someone who knows the names of the original file
 (`visible`: a dataset that already sat at a `<name>.<extra>` name is somebody else's) -/
 def ContentPreservedRel (lib : List Nat) (r : Nat) (f : File) : Prop :=
@@ -569,6 +591,15 @@ theorem sample_collect : collect [1, 2, 1] sample =
 /-- the hypotheses of `C18_resumable` / `C18_writable` are met by a file that really changes -/
 example : (interrupt [1, 2, 1] 1 2 sample).2 = none ∧ (interrupt [1, 2, 1] 1 2 sample).1 ≠ sample ∧
     2 < (collect [1, 2, 1] sample).length := by
+  unfold interrupt
+  rw [sample_collect]
+  decide +kernel
+/-- `C18_stale_list_resumes` on a run that really stopped half-way: the first two steps of the stale list change
+nothing, the remaining three do the rest -/
+example : (runSteps [1, 2, 1] 2 (interrupt [1, 2, 1] 1 2 sample).1 (collect [1, 2, 1] sample)).2 = none ∧
+    (runSteps [1, 2, 1] 2 (interrupt [1, 2, 1] 1 2 sample).1 ((collect [1, 2, 1] sample).take 2)).1
+      = (interrupt [1, 2, 1] 1 2 sample).1 ∧
+    (runSteps [1, 2, 1] 2 (interrupt [1, 2, 1] 1 2 sample).1 (collect [1, 2, 1] sample)).1.version = [1, 2, 1] := by
   unfold interrupt
   rw [sample_collect]
   decide +kernel
